@@ -85,16 +85,34 @@ def check_world(cfg, w):
         for e in w.trace[r]:
             if e['tag'] == ('ddp',):
                 continue
+            if e['tag'] and e['tag'][0] == 'ckpt':
+                by_op.setdefault(('ckpt',), []).append(e)
+                continue
             if not e['tag'] or e['tag'][0] != 'train':
                 v.append(('comm-outside-step', f'rank{r}: {e["kind"]} on '
                           f'{e["ranks"]} during {e["tag"]}'))
                 continue
             by_op.setdefault(e['tag'], []).append(e)
+        # a load recomputes second-order data with the placement of a
+        # refresh step: broadcasts inside worker columns only
+        lo = by_op.get(('ckpt',), [])
+        want_lo = []
+        if k > 1 and any(e['op'][0] == 'ckpt' for e in w.results[r]):
+            for nm, (na, ng, _) in dims.items():
+                if r in holders[nm]:
+                    want_lo += expected_so_numels(method, na, ng, sym)
+        if sorted(e['numel'] for e in lo) != sorted(want_lo) or any(
+                e['kind'] != 'broadcast' or frozenset(e['ranks']) not in cols
+                for e in lo):
+            v.append(('load-communication', f'rank{r}: load_state_dict '
+                      f'issued {[(e["kind"], e["ranks"], e["numel"]) for e in lo]}'
+                      f', expected broadcasts of {sorted(want_lo)} elements '
+                      'inside its worker columns'))
         for ev in w.results[r]:
             if ev['op'][0] != 'train':
                 continue
             s = ev['steps_before']
-            tag = [t for t in by_op if t[2] == s]
+            tag = [t for t in by_op if len(t) > 2 and t[2] == s]
             es = by_op.get(tag[0], []) if tag else []
             F = fus(s) if callable(fus) else fus
             Iv = ius(s) if callable(ius) else ius
@@ -212,11 +230,12 @@ def configs(thorough, seed):
                           allreduce_bucket_cap_mb=cap, symmetry_aware=sym,
                           colocate_factors=col,
                           grad_worker_fraction=k / world)
-                T, M = ['train'], ['mem']
+                T, M, L = ['train'], ['mem'], ['ckpt', True, True]
+                hist = [T, M, T, M, T, T, M] if i % 3 else \
+                    [T, M, T, L, M, T, M]
                 out.append({'model': model, 'dtype': 'f32', 'batch': 2,
                             'world': world, 'k': k, 'seed': seed, 'kfac': kk,
-                            'record_factors': False,
-                            'history': [T, M, T, M, T, T, M]})
+                            'record_factors': False, 'history': hist})
     return out
 
 
@@ -233,7 +252,8 @@ def main(run: core.Run):
         'world size {1,2,4(,6,8)} x every gradient-worker count x interval '
         'pairs {(1,1),(1,2),(2,2),(2,1),(2,3)} x bucketed/unbucketed x '
         'symmetric/dense x 3 methods x colocation x hook/no-hook x 2 models, '
-        'history train,mem,train,mem,train,train,mem under two schedules; at '
+        'history train,mem,train,mem,train,train,mem (every third: with a '
+        'save + load into fresh objects in the middle) under two schedules; at '
         'every memory query: reported bytes == bytes of tensors found by an '
         'independent walk, second-order data held iff gradient worker, '
         'gradient workers form the grid column of the inverse worker; per '
@@ -247,8 +267,7 @@ def main(run: core.Run):
     run.sample(cfgs[len(cfgs) // 2])
     run.cap('two fixed schedules per configuration (the collective trace '
             'of a rank does not depend on the schedule)')
-    run.assumptions += ['histories contain no load_state_dict (C09/C03 '
-                        'cover it)', 'simdist stands in for gloo/NCCL']
+    run.assumptions += ['simdist stands in for gloo/NCCL']
     if not thorough:
         run.cap('quick runs half of the world-4 configurations per seed')
 
